@@ -742,7 +742,7 @@ class Interp:
         keep = getattr(self.hooks, "keep_carried", lambda name: False)
         for name in carried:
             if name in self.env and not keep(name):
-                self.env[name] = Sym(f"{name}@{label}")
+                self.env[name] = Sym(f"{name}__in_loop")
         saved_prefix = self.prefix
         self.prefix = f"{self.prefix}{label}::"
         self.each_ctx.append(label)
@@ -771,7 +771,7 @@ class Interp:
         self.loop_depth -= 1
         for name in carried:
             if not keep(name):
-                self.env[name] = Sym(f"{name}@after {label}")
+                self.env[name] = Sym(f"{name}__after_loop")
         if outcome != "break":
             self.block(st.orelse)
 
